@@ -310,23 +310,30 @@ def run(rep: vk.Report):
     # the start point, the objective / gradient and EVERY constraint (also those that mention parameters only), compared at the seam
     from optyx import Variable as _Vs, Parameter as _Ps
     seam_cmp = seam_bad = 0
-    def seam_of(Pr, meth):
+    def seam_of(Pr, meth, probe_it=True):
         with stubs.Seams(minimize_script=[lambda call: stubs.mres(x=call["x0"], fun=0.0)] * 2) as S_, warnings.catch_warnings():
             warnings.simplefilter("ignore")
             try:
-                Pr.solve(method=meth)
+                sol_ = Pr.solve(method=meth)
             except Exception as ex:
                 return {"raised": type(ex).__name__}
         if not S_.minimize_calls:
             return {"route": "no minimize call"}
+        if not probe_it:
+            return None              # the first build is left untouched: nothing is asked of its callables before the update
         c_ = S_.minimize_calls[0]
-        probe = np.array([0.75 + 0.5 * k_ for k_ in range(len(c_["x0"]))])
+        x0_ = np.asarray(c_["x0"], dtype=float)
+        probe = np.array([0.75 + 0.5 * k_ for k_ in range(len(x0_))])
         with np.errstate(all="ignore"):
             cons_ = []
             for d_ in (c_["constraints"] or ()):
                 if isinstance(d_, dict):
-                    cons_.append([d_["type"], round(float(d_["fun"](probe)), 9), np.round(np.asarray(d_["jac"](probe), dtype=float).reshape(-1), 9).tolist()])
-            return {"x0": np.round(np.asarray(c_["x0"], dtype=float), 12).tolist(), "fun": round(float(c_["fun"](probe)), 9),
+                    # first AT THE POINT THE SOLVER RETURNED (the scripted answer is the start point; the wrapper's own scan has just been
+                    # there), then at the probe point
+                    at_ret = round(float(d_["fun"](x0_.copy())), 9)
+                    cons_.append([d_["type"], at_ret, round(float(d_["fun"](probe)), 9), np.round(np.asarray(d_["jac"](probe), dtype=float).reshape(-1), 9).tolist()])
+            # the verdict for the scripted answer x = x0 is the wrapper's own feasibility scan under the CURRENT parameter values
+            return {"x0": np.round(x0_, 12).tolist(), "fun": round(float(c_["fun"](probe)), 9), "status_for_scripted_answer": sol_.status.value,
                     "jac": None if c_["jac"] is None else np.round(np.asarray(c_["jac"](probe), dtype=float), 9).tolist(),
                     "constraints": sorted(cons_, key=repr)}
     for trial in range(12 if rep.tier == "quick" else 200):
@@ -351,7 +358,7 @@ def run(rep: vk.Report):
         if meth == "L-BFGS-B":
             P = Problem().minimize(obj)
             cons = []
-        seam_of(P, meth)                                   # first build
+        seam_of(P, meth, probe_it=False)                   # first build
         updates = [("d", 8.0), ("cap", 2.0), ("d", 1.0), ("kq", -1.5), ("cap", 9.0), ("d", -0.3)]
         r.shuffle(updates)
         hist_ = []
